@@ -12,7 +12,8 @@ RULE = ("well-formed strings: symbols of arbitrary bracket-free, dot-free text (
         "split_selfies must yield exactly the own tokenisation, len_selfies its length, get_alphabet_from_selfies the symbol set "
         "without '.'; every encoder output (random molecules, dataset) must be well formed, and the token tap M6 must show the "
         "decoder consuming exactly these tokens. distinct = distinct string; non-trivial = >= 3 symbols or a dot")
-ASSUMPTIONS = ["leading, trailing and doubled dots are outside the stated domain and are not judged"]
+ASSUMPTIONS = ["leading and doubled dots are outside the stated domain and are not judged (split_selfies starts at the first '['); "
+               "a single trailing dot is judged"]
 BODY = list("CNOHFSPclBrI=#/\\@+-0123456789") + ["Ring", "Branch", "nop", "epsilon", " ", "\t", "é", "٣", "\x00", "(", ")", "%", ":", "_", "expl", "Cl", "\n", "ß", "$", "*", ",", "'", '"']
 
 
@@ -38,6 +39,8 @@ def make(rng):
         if i and rng.random() < 0.2:
             items.append(".")
         items.append(s)
+    if items and rng.random() < 0.08:
+        items.append(".")       # one trailing dot: the utilities and the translators treat it consistently
     return items
 
 
